@@ -5,14 +5,14 @@ import itertools
 import warnings
 from collections import Counter
 
-from mc import harness
+from mc import harness, seqdiff
 from mc.common import HarnessError, Stats, pmap, safe
 
 PROPERTY = 'C06'
 LEVEL = 'exploration'
 RULE = ('mixed_rank_graph on a 3-row frame for every column set of 1..6 columns (every label position, every plain / " AND_REL " naming pattern of the other '
         'columns), one family per size 7..40 x every label position, x target-only/pairwise x heuristic {MI-numba-randomized, MI-numba-3mr, Constant} x every cap '
-        'from 1 to #candidates+1; plus one 150-column 3MR frame that exercises the 10^4 clamp. Oracle on triplet_scores: mirror multiplicity, subset / equality '
+        'from 1 to #candidates+1; plus one 150-column 3MR frame that exercises the 10^4 clamp; sequence differential over <= 3 successive batches with DIFFERENT column sets in one process state. Oracle on triplet_scores: mirror multiplicity, subset / equality '
         'with the specified pair set, cap respected, names are columns. distinct_nontrivial = (column set, mode, heuristic, cap) cases with >= 3 columns')
 ASSUMPTIONS = ['candidate lists may contain a pair twice (the diagonal in pairwise mode): the oracle is on sets of pairs and on mirror multiplicity only',
                'when the cap is smaller than the candidate list only "at most cap, at least one, subset of the specified set" is required']
@@ -141,8 +141,36 @@ def _clamp(_):
     return st
 
 
+SEQ_SETS = [['a', 'b', 'label'], ['label', 'c'], ['a', 'r0 AND_REL q0', 'label', 'b'], ['d', 'label', 'a', 'e', 'b'], ['label']]
+
+
+def seq_call(x):
+    names, heuristic, pairwise, cap = x
+    import pandas as pd
+    from outrank import core_ranking as cr
+    df = pd.DataFrame({c: [str((i * (j + 2)) % 3) for i in range(3)] for j, c in enumerate(names)})
+    args = harness.make_args(heuristic=heuristic, target_ranking_only='False' if pairwise else 'True', combination_number_upper_bound=cap)
+    with warnings.catch_warnings():
+        warnings.simplefilter('ignore')
+        res = cr.mixed_rank_graph(df, args, harness.InlinePool(), harness.NullBar())
+    return sorted((a, b, round(float(s), 7)) for a, b, s in res.triplet_scores)
+
+
+def seq_menu(job):
+    heuristic, pairwise = job
+    return [(names, heuristic, pairwise, 2 ** 15) for names in SEQ_SETS]
+
+
+def _seqdiff(job):
+    st = Stats()
+    seqdiff.run(seq_call, seq_menu(job), 3, st, lambda seq, pos: {'kind': 'seqdiff', 'job': list(job), 'seq': list(seq)}, {'kind': 'history_dependent', 'heuristic': job[0]})
+    return st
+
+
 def _dispatch(item):
     k, job = item
+    if k == 'seqdiff':
+        return _seqdiff(job)
     return _job(job) if k == 'sets' else _clamp(job)
 
 
@@ -158,7 +186,8 @@ def run(ctx):
         for lpos in range(n):
             big.append(col_names(n, lpos, 0b1001 if n % 2 else 0))
     jobs = [('sets', sets[i::48]) for i in range(48)] + [('sets', big[i::32]) for i in range(32)] + [('clamp', None)]
-    for st in pmap(_dispatch, [j for j in jobs if j[0] == 'clamp' or j[1]]):
+    jobs += [('seqdiff', (h, pw)) for h in HEUR for pw in (False, True)]
+    for st in pmap(_dispatch, [j for j in jobs if j[0] in ('clamp', 'seqdiff') or j[1]]):
         ctx.stats.merge(st)
     ctx.extra['small_column_sets'] = len(sets)
     ctx.extra['large_column_sets'] = len(big)
@@ -167,4 +196,6 @@ def run(ctx):
 
 
 def eval_case(case):
+    if case.get('kind') == 'seqdiff':
+        return seqdiff.replay(seq_call, seq_menu(tuple(case['job'])), case['seq'])
     return [m for _, m in judge(case['columns'], case['heuristic'], case['pairwise'], case['cap'])]
